@@ -631,5 +631,8 @@ func CheckImportImage(prep *ImportPrep, op Op, before, after *Model, pt Point, i
 	defer func() { atomic.AddInt64(&ist.TSecond, int64(time.Since(t))) }()
 	atomic.AddInt64(&ist.CrashStateBM, 1)
 	return (&ImageCheck{Dir: second, Params: prep.Params, Before: before, After: after, Rng: rng,
-		Sig: func(rule string) string { return sig(rule + "/crash-state") }, Ctx: ctx, Stats: bms, BM: bmo}).Run()
+		Sig: func(rule string) string { return sig(rule + "/crash-state") }, Ctx: ctx, Stats: bms, BM: bmo,
+		// This second look at the crash state restarts the way the complete
+		// client does (NewChainService), not through the store constructors.
+		Service: PlainStartSpec(prep.Params)}).Run()
 }
